@@ -10,6 +10,7 @@ EXTENDS Autograd
 
 MC_LeafVals == {Scalar(QI(2))}
 MC_UnOps == {<<"scale", [k |-> Two]>>, <<"scale", [k |-> One]>>}      \* the identity factor: a shortcut returning the operand itself would show
+MC_CtorShapes == {}
 MC_BinOps == {<<"add", NoPar>>, <<"eq", NoPar>>}
 Bounded == \A i \in Ids : \A p \in DOMAIN T[i].val.data : Abs(T[i].val.data[p].n) < 1000
 =============================================================================
